@@ -652,6 +652,10 @@ func Run(dir string, seed uint64, n int, tier string) error {
 		probeConvertShift()
 		return nil
 	}
+	if os.Getenv("C13_PROBE") == "solver" {
+		probeSolver()
+		return nil
+	}
 	out := u.NewOut(dir, "C13", "KaiV.Run.C13", "case", 12)
 	out.Flags = true
 	root := u.NewRng(seed)
@@ -741,6 +745,11 @@ func Run(dir string, seed uint64, n int, tier string) error {
 		wg.Wait()
 		return out
 	}
+	if os.Getenv("C13_ONLY") == "solver" {
+		// by hand: the solver-level stream alone (stress runs over many seeds)
+		solverStream(out, root, n, parallel)
+		return out.Flush()
+	}
 	cps := append(corpus(), claimsCorpus()...)
 	for i, res := range parallel(len(cps), func(i int) result {
 		k := cps[i]
@@ -812,6 +821,9 @@ func Run(dir string, seed uint64, n int, tier string) error {
 			out.Sample(x.label)
 		}
 	}
+	// solver level: the real scenario solver on generated clusters, several fresh sessions per cluster (the node order of
+	// the per-node attempts comes from a map iteration); identical outcomes of one cluster are emitted once
+	solverStream(out, root, n, parallel)
 	// real cycles: at most one call of each kind per pod
 	nc := n / 3
 	type cyc struct {
